@@ -1,5 +1,5 @@
 """C06 rule set (see DESIGN.md section 5)."""
-from rules.teddy import r06_1, r06_3, r06_4, r06_5, r06_6, r06_7
+from rules.teddy import r06_1, r06_3, r06_4, r06_5, r06_6, r06_7, r06_10
 from rules.teddy import r15_7
 from rules.teddy import r15_4
 from rules.prefilter import r10_5, r10_6
@@ -7,7 +7,7 @@ from rules.prefilter import r10_5, r10_6
 LEVEL = 'other'
 from rules.utilfn import r06_8
 from rules.utilfn import r06_9
-RULES = [('R15.7', r15_7), ('R15.4', r15_4), ('R06.1', r06_1), ('R06.3', r06_3), ('R06.4', r06_4), ('R06.5', r06_5), ('R06.6', r06_6), ('R06.7', r06_7), ('R10.5', r10_5), ('R10.6', r10_6), ('R06.8', r06_8), ('R06.9', r06_9)]
+RULES = [('R15.7', r15_7), ('R15.4', r15_4), ('R06.1', r06_1), ('R06.3', r06_3), ('R06.4', r06_4), ('R06.10', r06_10), ('R06.5', r06_5), ('R06.6', r06_6), ('R06.7', r06_7), ('R10.5', r10_5), ('R10.6', r10_6), ('R06.8', r06_8), ('R06.9', r06_9)]
 EXPLANATION = """R06.1 template consistency of the eight generic searchers Slim<V,k> / Fat<V,k>, k = 1..4 (lane width L = V::BYTES resp. V::Half::BYTES):
 find starts at start + (k-1), loops while cur <= end - L, strides by L, and if cur < end re-runs once at end - L; find_one verifies from
 cur - (k-1) behind !candidate.is_zero(); candidate loads width L at cur, applies members_k, shifts result j in by k-1-j bytes from prev_j,
